@@ -102,8 +102,10 @@ def parseRecord (toks : List String) : Option Record :=
   | _ => none
 
 def mkTracking (leap ref off disp delay iv : Int) : Tracking :=
-  { leap := leap.toNat, refNs := ref, offW := off.toNat, dispW := disp.toNat, delayW := delay.toNat,
-    intervalW := iv.toNat }
+  -- words are taken modulo their width, as the harness's `as u32` / `as u16` casts do
+  { leap := (leap % 65536).toNat, refNs := ref, offW := (off % 4294967296).toNat,
+    dispW := (disp % 4294967296).toNat, delayW := (delay % 4294967296).toNat,
+    intervalW := (iv % 4294967296).toNat }
 
 def trackingTags (t : Tracking) (now : Int) : List String :=
   let off := F64.chronyFloat t.offW
@@ -178,7 +180,7 @@ def updLine (args : List String) (impl : List String) : String :=
       let mtxt := (if recTxt.isEmpty then "none" else String.intercalate " ; " recTxt) ++ " ## " ++ String.intercalate " " pairTxt
       -- oracle on the implementation's answer
       let implParts := impl.splitOn "##"
-      let irecs : Option (List Record) := (splitSemi (implParts.headD [])).mapM parseRecord
+      let irecs : Option (List Record) := ((splitSemi (implParts.headD [])).filter (· != ["none"])).mapM parseRecord
       let ipairs := (ints ((implParts.drop 1).headD [])).map pairsOf
       let (v, tags) := match irecs, ipairs with
         | some rs, some ps =>
@@ -200,6 +202,47 @@ where
   parseMsg' (toks : List String) : Option (Option Msg) :=
     if toks == ["noise"] then some none else (parseMsg toks).map some
 
+/-- gen <start> => <in-flight> <final> -/
+def genLine (args impl : List String) : String :=
+  match ints args with
+  | some [g] =>
+    let s := genStart g.toNat
+    let f := genFinish s
+    let v := match ints impl with
+      | some [i, fi] => verdict "C11" (decide (0 ≤ g ∧ g < 65536)) (C11.Holds g.toNat i.toNat fi.toNat && decide (0 ≤ i) && decide (0 ≤ fi))
+      | _ => "C11:FAILS oracle:unparsed"
+    let tags := (if g % 2 = 0 then ["even"] else ["odd"]) ++ (if g ≥ 65534 then ["wrap"] else []) ++ (if g = 0 then ["zero"] else [])
+    s!"{s} {f} | {v} | {String.intercalate "," tags}"
+  | _ => "bad-op | |"
+
+/-- drift <ppm|none> => ok <ppb> | refused <rc> | rejected -/
+def driftLine (args impl : List String) : String :=
+  let arg : Option (Option Int) := match args with
+    | ["none"] => some none
+    | [x] => x.toInt?.map some
+    | _ => none
+  match arg with
+  | none => "bad-op | |"
+  | some a =>
+    if (match a with | some r => decide (r < 0 ∨ r ≥ 4294967296) | none => false) then
+      s!"rejected | C19:na | outOfRange"
+    else
+      let an := a.map Int.toNat
+      let m := driftPpb an
+      let mtxt := match m with | some p => s!"ok {p}" | none => "refused"
+      let ipub : Option (Option Nat) := match impl with
+        | ["ok", p] => p.toNat?.map some
+        | "refused" :: _ => some none
+        | _ => none
+      let v := match ipub with
+        | some pub => verdict "C19" true (C19.Holds an pub)
+        | none => "C19:FAILS oracle:unparsed"
+      let tags := match an with
+        | none => ["omitted"]
+        | some r => (if r * 1000 ≥ 4294967296 then ["unrepresentable"] else ["representable"]) ++
+                    (if r + 2 ≥ 4294968 ∧ r ≤ 4294970 then ["boundary"] else [])
+      s!"{mtxt} | {v} | {String.intercalate "," tags}"
+
 def processLine (line : String) : String :=
   let parts := line.splitOn " => "
   let req := (parts.headD "").trimAscii.toString.splitOn " " |>.filter (· ≠ "")
@@ -209,6 +252,8 @@ def processLine (line : String) : String :=
   | "client2" :: args => client2Line args impl
   | "extract" :: args => extractLine args impl
   | "upd" :: args => updLine args impl
+  | "gen" :: args => genLine args impl
+  | "drift" :: args => driftLine args (match impl with | "refused" :: _ => ["refused"] | x => x)
   | _ => "bad-op | |"
 
 end ClockBound.Driver
